@@ -34,6 +34,51 @@ func genC16(r *Rng, tier string, idx int) *Program {
 	p.Cfg.RetentionEnabled = true
 	p.Cfg.StepGapMs = 1000
 	stages := sr.Range(2, 5)
+	if sr.Chance(0.4) {
+		// long follower outage: while the follower is down the primary compacts
+		// into every level, snapshots, expires snapshots (which prunes the lower
+		// levels by TXID) and expires level-0 files, so that the follower's gap
+		// has to be bridged from more than one level when it comes back
+		p.Variant = "outage"
+		p.Cfg.LevelMs = []int64{2000, 8000}
+		p.Cfg.SnapshotRetentionMs = []int64{3000, 12000}[sr.Intn(2)]
+		p.Cfg.L0RetentionMs = []int64{1, 1500}[sr.Intn(2)]
+		txns := func(n int) {
+			for i := 0; i < n; i++ {
+				p.Ops = append(p.Ops, appOp(genTxn(sr, &p.Cfg)), Op{Kind: "ls_sync_wait"})
+			}
+		}
+		txns(sr.Range(1, 4))
+		p.Ops = append(p.Ops, Op{Kind: "follow", N: int64(sr.Range(0, 2)), Ms: 500})
+		for round := sr.Range(1, 3); round > 0; round-- {
+			for k := sr.Range(1, 3); k > 0; k-- {
+				txns(sr.Range(1, 4))
+				p.Ops = append(p.Ops, Op{Kind: "sleep", Ms: 2500}, Op{Kind: "ls_compact", Level: 1})
+			}
+			if sr.Chance(0.8) {
+				p.Ops = append(p.Ops, Op{Kind: "sleep", Ms: 9000}, Op{Kind: "ls_compact", Level: 2})
+			}
+			if sr.Chance(0.8) {
+				p.Ops = append(p.Ops, Op{Kind: "ls_compact", Level: 9})
+			}
+			if sr.Chance(0.7) {
+				p.Ops = append(p.Ops, Op{Kind: "sleep", Ms: 15000}, Op{Kind: "ls_snap_retention"})
+			}
+			if sr.Chance(0.3) {
+				p.Ops = append(p.Ops, Op{Kind: "follow", N: int64(sr.Range(0, 2)), Ms: 500})
+			}
+		}
+		for k := sr.Range(1, 3); k > 0; k-- {
+			txns(sr.Range(1, 4))
+			if sr.Chance(0.8) {
+				p.Ops = append(p.Ops, Op{Kind: "sleep", Ms: 2500}, Op{Kind: "ls_compact", Level: 1})
+			}
+		}
+		txns(sr.Range(0, 3))
+		p.Ops = append(p.Ops, Op{Kind: "sleep", Ms: 2500}, Op{Kind: "ls_l0_retention"})
+		p.Ops = append(p.Ops, Op{Kind: "follow", N: int64(sr.Range(0, 3)), Ms: []int64{500, 1000}[sr.Intn(2)]})
+		stages = 0
+	}
 	for s := 0; s < stages; s++ {
 		n := sr.Range(2, 9)
 		for i := 0; i < n; i++ {
@@ -66,7 +111,13 @@ func genC16(r *Rng, tier string, idx int) *Program {
 		p.Params["kill_inc"] = int64((idx / 64) % 4)
 	} else {
 		p.Params["kill_permille"] = int64(r.Intn(1000))
-		p.Params["kill_inc"] = int64(r.Intn(stages))
+		nf := 0
+		for _, op := range p.Ops {
+			if op.Kind == "follow" {
+				nf++
+			}
+		}
+		p.Params["kill_inc"] = int64(r.Intn(nf + 1))
 	}
 	return p
 }
@@ -193,7 +244,7 @@ func runC16Once(p *Program, killInc, killAt int, res *Result) *c16run {
 		if requireLatest {
 			max := e.replicaMaxTXIDAnyLevel()
 			if sc != max {
-				return e.fail("follower-not-converged", "%s: replica stopped changing at TXID %d but the follower is at %d", when, max, sc)
+				return e.fail("follower-not-converged", "%s: replica stopped changing at TXID %d but the follower is at %d (%s)", when, max, sc, listStr(e.listingOf(e.fileClient())))
 			}
 		}
 		return nil
@@ -341,4 +392,20 @@ func (e *Env) replicaMaxTXIDAnyLevel() ltx.TXID {
 
 func init() {
 	register(&Prop{ID: "C16", Engine: "NODE", Gen: genC16, Run: runC16, Nontrivial: func(r *Result) bool { return r.Probes["kills"] > 0 }})
+}
+
+func (e *Env) listingOf(c litestream.ReplicaClient) []pfile {
+	var files []pfile
+	for lv := 0; lv <= litestream.SnapshotLevel; lv++ {
+		itr, err := c.LTXFiles(ctxBG, lv, 0, false)
+		if err != nil {
+			continue
+		}
+		for itr.Next() {
+			fi := itr.Item()
+			files = append(files, pfile{fi.Level, fi.MinTXID, fi.MaxTXID, fi.CreatedAt})
+		}
+		itr.Close()
+	}
+	return files
 }
